@@ -240,6 +240,8 @@ fn score_same(r: f32, s: f32, tol: f32) -> bool {
 #[allow(clippy::too_many_arguments)]
 fn drive(sc: &mut Box<dyn Scorer>, truth: &[u32], ref_scores: Option<&HashMap<u32, f32>>, tol: f32, script: &[Call], len: usize, with_danger: bool, rng: &mut Rng) -> Driven {
     let mut dangling: Option<u32> = None;
+    // the largest target passed to seek / seek_danger so far: the trait promises strictly increasing seek_danger targets
+    let mut max_target: Option<u32> = None;
     let mut ended = false;
     let mut prog = vec![];
     let mut obs = vec![];
@@ -283,7 +285,7 @@ fn drive(sc: &mut Box<dyn Scorer>, truth: &[u32], ref_scores: Option<&HashMap<u3
                 // the contract, as for seek)
                 let pos = truth.partition_point(|d| *d < cur);
                 let pred = if pos == 0 { None } else { Some(truth[pos - 1]) };
-                let lo = pred.map(|p| p + 1).unwrap_or(0);
+                let lo = pred.map(|p| p + 1).unwrap_or(0).max(max_target.map(|t| t.saturating_add(1)).unwrap_or(0));
                 if rng.chance(1, 6) && lo < cur.min(TERMINATED - 1) { Call::Danger(lo + rng.below((cur.min(TERMINATED - 1) - lo) as u64) as u32) }
                 else { Call::Danger(target(rng, cur)) }
             }
@@ -319,6 +321,7 @@ fn drive(sc: &mut Box<dyn Scorer>, truth: &[u32], ref_scores: Option<&HashMap<u3
             Call::Count => (Obs::Count(sc.count_including_deleted()), true, false),
         });
         prog.push(call.clone());
+        if let Call::Seek(t) | Call::Danger(t) = &call { max_target = Some(max_target.map_or(*t, |m| m.max(*t))); }
         match o {
             Err(e) => { obs.push(Obs::Panic(e.clone())); problems.push(format!("panic in {:?}: {}", call, e)); ended = true; break; }
             Ok((ob, ret_ok, positioning)) => {
